@@ -66,6 +66,7 @@ LayerStacks == {
   << <<B(<<"s">>, SetV(FALSE, <<B(<<"x">>, IntV(1)), B(<<"y">>, IntV(2))>>))>> >>
 }
 PlainWrap == { <<>> }
+MapLayers == { <<>>, << <<B(<<"u">>, IntV(1))>> >>, << <<B(<<"u">>, IntV(1)), B(<<"w">>, IntV(2))>> >> }
 Wrappers == { <<>>, <<"lam_id">>, <<"lam_formals">>, <<"with">>, <<"assert">>, <<"paren">>,
               <<"call">>, <<"call_rec">>, <<"call_paren_lam">>, <<"lam_formals", "with", "assert">> }
 
